@@ -35,7 +35,13 @@ type mutation struct {
 
 // world tracks which objects exist so that create/update/delete are chosen sensibly.
 type world struct {
-	exists map[string]config.Config
+	// collide: which hostname collisions between ServiceEntries the generator may produce.
+	// 0 = every host is declared by at most one ServiceEntry; 1 = the same host may be declared in different
+	// namespaces; 2 = also by several ServiceEntries of one namespace. Violations are tagged with the
+	// collision classes present (known findings are keyed on them).
+	collide int
+	worst   int // worst collision class that ever existed during the history (0 unique, 1 duphost, 2 dupns)
+	exists  map[string]config.Config
 	kinds  []string // enabled kinds for this run
 	seq    int
 	kube   *kubeWorld
@@ -48,6 +54,14 @@ var allConfigKinds = []string{
 
 func newWorld(tp *engine.Tape, kinds []string) *world {
 	wd := &world{exists: map[string]config.Config{}}
+	switch c := tp.Choose(20, "collide"); {
+	case c < 10:
+		wd.collide = 0
+	case c < 17:
+		wd.collide = 1
+	default:
+		wd.collide = 2
+	}
 	if kinds == nil {
 		// swarm: ServiceEntry always, a random subset of the rest
 		wd.kinds = []string{"ServiceEntry"}
@@ -99,14 +113,69 @@ func pickSelector(tp *engine.Tape) *typev1beta1.WorkloadSelector {
 	return nil
 }
 
-func genSpec(tp *engine.Tape, kind, ns, name string) config.Spec {
+// hostAllowed reports whether ServiceEntry ns/name may declare host h under the run's collision stratum.
+func (wd *world) hostAllowed(h, ns, name string) bool {
+	if wd.collide >= 2 {
+		return true
+	}
+	for k, c := range wd.exists {
+		if c.GroupVersionKind.Kind != "ServiceEntry" || k == "ServiceEntry/"+ns+"/"+name {
+			continue
+		}
+		for _, x := range c.Spec.(*networking.ServiceEntry).Hosts {
+			if x == h && (wd.collide == 0 || c.Namespace == ns) {
+				return false
+			}
+		}
+	}
+	return true
+}
+
+// collisionTags names the hostname-collision classes present among the existing ServiceEntries.
+func (wd *world) collisionTags() string {
+	byHost := map[string][]string{}
+	for _, k := range wd.existingKeys() {
+		c := wd.exists[k]
+		if c.GroupVersionKind.Kind != "ServiceEntry" {
+			continue
+		}
+		for _, h := range c.Spec.(*networking.ServiceEntry).Hosts {
+			byHost[h] = append(byHost[h], c.Namespace)
+		}
+	}
+	dupns, duphost := false, false
+	for _, nss := range byHost {
+		seen := map[string]bool{}
+		for _, n := range nss {
+			if seen[n] {
+				dupns = true
+			}
+			seen[n] = true
+		}
+		if len(seen) > 1 {
+			duphost = true
+		}
+	}
+	switch {
+	case dupns:
+		return "dupns"
+	case duphost:
+		return "duphost"
+	}
+	return "unique"
+}
+
+func (wd *world) genSpec(tp *engine.Tape, kind, ns, name string) config.Spec {
 	switch kind {
 	case "ServiceEntry":
 		se := &networking.ServiceEntry{}
 		h := pickHost(tp)
+		if !wd.hostAllowed(h, ns, name) {
+			h = name + ".uniq.example.com"
+		}
 		se.Hosts = []string{h}
 		if tp.Bool(1, 5, "twohosts") {
-			if h2 := pickHost(tp); h2 != h {
+			if h2 := pickHost(tp); h2 != h && wd.hostAllowed(h2, ns, name) {
 				se.Hosts = append(se.Hosts, h2)
 			}
 		}
@@ -390,7 +459,17 @@ func kindSlots(kind string) [][2]string {
 }
 
 // next draws one config mutation.
+// everTags names the worst hostname-collision class that existed at any point of the history so far.
+func (wd *world) everTags() string {
+	cur := map[string]int{"unique": 0, "duphost": 1, "dupns": 2}[wd.collisionTags()]
+	if cur > wd.worst {
+		wd.worst = cur
+	}
+	return []string{"unique", "duphost", "dupns"}[wd.worst]
+}
+
 func (wd *world) next(tp *engine.Tape) mutation {
+	defer wd.everTags()
 	wd.seq++
 	if wd.kube != nil && tp.Bool(wd.kube.weight, 10, "kubemut") {
 		return wd.kube.next(tp, wd.seq)
@@ -408,7 +487,7 @@ func (wd *world) next(tp *engine.Tape) mutation {
 			return inst.fds.Store().Delete(g, name, ns, nil)
 		}}
 	}
-	spec := genSpec(tp, kind, ns, name)
+	spec := wd.genSpec(tp, kind, ns, name)
 	if exists {
 		nc := cur.DeepCopy()
 		nc.Spec = spec
